@@ -132,24 +132,24 @@ structure Arenas where
   iArray : Nat := 0
   iRun : Nat := 0
 
-/-- `roaringArray.frozenView(buf)`; the result carries `copyOnWrite = true` and every `needCopyOnWrite[i] = true` -/
-def frozenView (P : FrozenParams) (bs : Bytes) : Outcome Rep := do
-  let b := bs.toArray
+/-- the header part of `frozenView`: cookie checks, container count, and the `types` / `counts` / `keys` slices cut from
+the end of the buffer; returns them with what is left of `buf` -/
+def frozenHeader (P : FrozenParams) (b : Array UInt8) : Outcome (Win × Win × Win × Win) :=
   let buf : Win := { off := 0, len := b.size }
   -- if len(buf) < 4 { return ErrFrozenBitmapIncomplete }
-  if buf.len < 4 then Outcome.err
+  if buf.len < 4 then .err else do
   -- headerBE := binary.BigEndian.Uint32(buf[len(buf)-4:])
   let tail ← buf.sliceFrom ((buf.len : Int) - 4)
   let b0 ← tail.idx b 0; let b1 ← tail.idx b 1; let b2 ← tail.idx b 2; let b3 ← tail.idx b 3
   let headerBE := b3 + 256 * (b2 + 256 * (b1 + 256 * b0))
-  if headerBE % 32768 == P.cookie then Outcome.err
+  if headerBE % 32768 == P.cookie then .err else do
   -- header := binary.LittleEndian.Uint32(buf[len(buf)-4:]);  buf = buf[:len(buf)-4]
   let header := b0 + 256 * (b1 + 256 * (b2 + 256 * b3))
   let buf ← buf.sliceTo ((buf.len : Int) - 4)
-  if header % 32768 != P.cookie then Outcome.err
+  if header % 32768 != P.cookie then .err else
   let nCont := header / 32768
-  if nCont > P.maxContainers then Outcome.err
-  if buf.len < 5 * nCont then Outcome.err
+  if nCont > P.maxContainers then .err else
+  if buf.len < 5 * nCont then .err else do
   -- types := buf[len(buf)-nCont:];  buf = buf[:len(buf)-nCont]
   let types ← buf.sliceFrom ((buf.len : Int) - nCont)
   let buf ← buf.sliceTo ((buf.len : Int) - nCont)
@@ -159,64 +159,93 @@ def frozenView (P : FrozenParams) (bs : Bytes) : Outcome Rep := do
   -- keys := byteSliceAsUint16Slice(buf[len(buf)-2*nCont:]);  buf = buf[:len(buf)-2*nCont]
   let keys ← (← buf.sliceFrom ((buf.len : Int) - 2 * nCont)).cast 2
   let buf ← buf.sliceTo ((buf.len : Int) - 2 * nCont)
-  -- first pass over the type codes
-  let mut t : Tally := {}
-  for i in [0:types.len] do
-    let code ← types.idx b i
-    if code == P.typeBitmap then
-      t := { t with nBitmap := t.nBitmap + 1 }
-    else if code == P.typeArray then
-      let c ← counts.idx b i
-      t := { t with nArray := t.nArray + 1, nArrayEl := t.nArrayEl + c + 1 }
-    else if code == P.typeRun then
-      let c ← counts.idx b i
-      t := { t with nRun := t.nRun + 1, nRunEl := t.nRunEl + c }
-    else
-      Outcome.err
+  pure (types, counts, keys, buf)
+
+/-- one iteration of the first `for i, t := range types` loop -/
+def tallyStep (P : FrozenParams) (b : Array UInt8) (types counts : Win) (i : Nat) (t : Tally) : Outcome Tally := do
+  let code ← types.idx b i
+  if code == P.typeBitmap then
+    pure { t with nBitmap := t.nBitmap + 1 }
+  else if code == P.typeArray then do
+    let c ← counts.idx b i
+    pure { t with nArray := t.nArray + 1, nArrayEl := t.nArrayEl + c + 1 }
+  else if code == P.typeRun then do
+    let c ← counts.idx b i
+    pure { t with nRun := t.nRun + 1, nRunEl := t.nRunEl + c }
+  else
+    Outcome.err
+
+/-- first pass over the type codes (indices in order) -/
+def tallyLoop (P : FrozenParams) (b : Array UInt8) (types counts : Win) : List Nat → Tally → Outcome Tally
+  | [], t => pure t
+  | i :: is, t => do
+    let t' ← tallyStep P b types counts i t
+    tallyLoop P b types counts is t'
+
+/-- size check and the three arenas cut from the front of what is left of `buf` -/
+def frozenArenas (P : FrozenParams) (buf : Win) (t : Tally) : Outcome Arenas :=
   -- if len(buf) < (1<<13)*nBitmap+4*nRunEl+2*nArrayEl { return ErrFrozenBitmapIncomplete }
-  if buf.len < P.bitmapBytes * t.nBitmap + 4 * t.nRunEl + 2 * t.nArrayEl then Outcome.err
+  if buf.len < P.bitmapBytes * t.nBitmap + 4 * t.nRunEl + 2 * t.nArrayEl then .err else do
   let bitsetsArena ← (← buf.sliceTo (Int.ofNat (P.bitmapBytes * t.nBitmap))).cast 8
   let buf ← buf.sliceFrom (Int.ofNat (P.bitmapBytes * t.nBitmap))
   let runsArena ← (← buf.sliceTo (Int.ofNat (4 * t.nRunEl))).cast 4
   let buf ← buf.sliceFrom (Int.ofNat (4 * t.nRunEl))
   let arraysArena ← (← buf.sliceTo (Int.ofNat (2 * t.nArrayEl))).cast 2
   let buf ← buf.sliceFrom (Int.ofNat (2 * t.nArrayEl))
-  if buf.len != 0 then Outcome.err
-  -- second pass: carve the containers out of the arenas
+  if buf.len != 0 then .err else
+  pure { bitsets := bitsetsArena, runs := runsArena, arrays := arraysArena }
+
+/-- one iteration of the second `for i, t := range types` loop: the container carved out of its arena (none for an
+unknown type code: the second `switch` has no `default`) -/
+def carveStep (P : FrozenParams) (b : Array UInt8) (types counts : Win) (i : Nat) (a : Arenas) :
+    Outcome (Arenas × List Slot) := do
   let wordsPer := P.bitmapBytes / 8
-  let mut a : Arenas := { bitsets := bitsetsArena, runs := runsArena, arrays := arraysArena }
-  let mut slots : Array Slot := #[]
-  for i in [0:types.len] do
-    let code ← types.idx b i
-    if code == P.typeBitmap then
-      let c ← counts.idx b i
-      let w ← a.bitsets.sliceTo (Int.ofNat wordsPer)                      -- bitsetsArena[:1024]
-      let rest ← a.bitsets.sliceFrom (Int.ofNat wordsPer)                   -- bitsetsArena[1024:]
-      let words := (List.range w.len).map fun k => BitVec.ofNat 64 (leAt b (w.off + 8 * k) 8)
-      slots := slots.push { key := 0, c := .bmp ((c : Int) + 1) words, flag := true }
-      a := { a with bitsets := rest, iBitset := a.iBitset + 1 }
-    else if code == P.typeArray then
-      let c ← counts.idx b i
-      let sz := c + 1
-      let w ← a.arrays.sliceTo (Int.ofNat sz)                             -- arraysArena[:sz]
-      let rest ← a.arrays.sliceFrom (Int.ofNat sz)                          -- arraysArena[sz:]
-      slots := slots.push { key := 0, c := .arr (w.u16s b), flag := true }
-      a := { a with arrays := rest, iArray := a.iArray + 1 }
-    else if code == P.typeRun then
-      let c ← counts.idx b i
-      let w ← a.runs.sliceTo (Int.ofNat c)                                -- runsArena[:counts[i]]
-      let rest ← a.runs.sliceFrom (Int.ofNat c)                             -- runsArena[counts[i]:]
-      let ivs := (List.range w.len).map fun k => (leAt b (w.off + 4 * k) 2, leAt b (w.off + 4 * k + 2) 2)
-      slots := slots.push { key := 0, c := .run ivs, flag := true }
-      a := { a with runs := rest, iRun := a.iRun + 1 }
-    else
-      pure ()                                              -- no `default` in the second switch
+  let code ← types.idx b i
+  if code == P.typeBitmap then do
+    let c ← counts.idx b i
+    let w ← a.bitsets.sliceTo (Int.ofNat wordsPer)                      -- bitsetsArena[:1024]
+    let rest ← a.bitsets.sliceFrom (Int.ofNat wordsPer)                   -- bitsetsArena[1024:]
+    let words := (List.range w.len).map fun k => BitVec.ofNat 64 (leAt b (w.off + 8 * k) 8)
+    pure ({ a with bitsets := rest, iBitset := a.iBitset + 1 },
+          [{ key := 0, c := .bmp ((c : Int) + 1) words, flag := true }])
+  else if code == P.typeArray then do
+    let c ← counts.idx b i
+    let sz := c + 1
+    let w ← a.arrays.sliceTo (Int.ofNat sz)                             -- arraysArena[:sz]
+    let rest ← a.arrays.sliceFrom (Int.ofNat sz)                          -- arraysArena[sz:]
+    pure ({ a with arrays := rest, iArray := a.iArray + 1 }, [{ key := 0, c := .arr (w.u16s b), flag := true }])
+  else if code == P.typeRun then do
+    let c ← counts.idx b i
+    let w ← a.runs.sliceTo (Int.ofNat c)                                -- runsArena[:counts[i]]
+    let rest ← a.runs.sliceFrom (Int.ofNat c)                             -- runsArena[counts[i]:]
+    let ivs := (List.range w.len).map fun k => (leAt b (w.off + 4 * k) 2, leAt b (w.off + 4 * k + 2) 2)
+    pure ({ a with runs := rest, iRun := a.iRun + 1 }, [{ key := 0, c := .run ivs, flag := true }])
+  else
+    pure (a, [])                                           -- no `default` in the second switch
+
+/-- second pass: carve the containers out of the arenas (indices in order) -/
+def carveLoop (P : FrozenParams) (b : Array UInt8) (types counts : Win) : List Nat → Arenas → Outcome (Arenas × List Slot)
+  | [], a => pure (a, [])
+  | i :: is, a => do
+    let (a', s) ← carveStep P b types counts i a
+    let (a'', ss) ← carveLoop P b types counts is a'
+    pure (a'', s ++ ss)
+
+/-- `roaringArray.frozenView(buf)`; the result carries `copyOnWrite = true` and every `needCopyOnWrite[i] = true` -/
+def frozenView (P : FrozenParams) (bs : Bytes) : Outcome Rep := do
+  let b := bs.toArray
+  let (types, counts, keys, buf) ← frozenHeader P b
+  -- first pass over the type codes
+  let t ← tallyLoop P b types counts (List.range types.len) {}
+  let a0 ← frozenArenas P buf t
+  -- second pass: carve the containers out of the arenas
+  let (a, slots) ← carveLoop P b types counts (List.range types.len) a0
   -- if iBitset != nBitmap || len(bitsetsArena) != 0 || … { panic("we missed something") }
   if a.iBitset != t.nBitmap || a.bitsets.len != 0 || a.iArray != t.nArray || a.arrays.len != 0 ||
-      a.iRun != t.nRun || a.runs.len != 0 then Outcome.panic
+      a.iRun != t.nRun || a.runs.len != 0 then .panic else
   -- ra.keys = keys; ra.containers = containers; ra.needCopyOnWrite = needCOW; ra.copyOnWrite = true
   let ks := keys.u16s b
-  if ks.length != slots.size then Outcome.panic          -- len(keys) = nCont = len(containers) by construction
-  pure { cow := true, slots := (slots.toList.zip ks).map fun (s, k) => { s with key := k } }
+  if ks.length != slots.length then .panic else          -- len(keys) = nCont = len(containers) by construction
+  pure { cow := true, slots := (slots.zip ks).map fun (s, k) => { s with key := k } }
 
 end RModel.Impl
